@@ -1449,3 +1449,326 @@ Section ExprStep.
       apply wp_ret. exists S1; auto.
   Qed.
 End ExprStep.
+
+Lemma args_ok_value ps ts : args_ok ps None ts = true -> Forall (fun t => t <> TNone) ts.
+Proof.
+  revert ts; induction ps as [|p ps IH]; intros [|a ts]; simpl; intros H; try discriminate; constructor.
+  - apply andb_true_iff in H as [H _]. apply ty_value_not_none. eapply arg_ok_value; eauto.
+  - apply andb_true_iff in H as [_ H]. auto.
+Qed.
+
+Lemma sig_args_ok_value sg ts : sig_args_ok sg ts = true -> Forall (fun t => t <> TNone) ts.
+Proof.
+  unfold sig_args_ok. destruct (fs_var sg) as [v|].
+  - destruct (fs_params sg); [|discriminate]. intros H.
+    induction ts; constructor; simpl in H; apply andb_true_iff in H as [H1 H2]; auto.
+    apply ty_value_not_none. eapply arg_ok_value; eauto.
+  - apply args_ok_value.
+Qed.
+
+Section ExprsStep.
+  Context (f : nat) (IHe : expr_sound f) (IHes : exprs_sound f).
+
+  Lemma exprs_step : exprs_sound (S f).
+  Proof.
+    intros P e es G ts S s Hty Hs1 Hnn HG Hi. cbn [eval_exprs]. destruct es as [|x es].
+    - simpl in Hty; inversion Hty; subst. apply wp_ret. exists S; repeat split; auto using ext_refl; apply Hi.
+    - cbn [etys] in Hty. cbn [s1_exprs] in Hs1. apply andb_true_iff in Hs1 as [Hs1a Hs1b].
+      destruct (ety (p_funcs P) G x) as [t|] eqn:Ex; [|discriminate].
+      destruct (etys (p_funcs P) G es) as [ts'|] eqn:Ees; inversion Hty; subst.
+      inversion Hnn; subst.
+      wbind ltac:(eapply IHe; eauto). intros v s1 (S1 & E1 & Hi1 & Hv).
+      apply wp_depth_fuel.
+      wbind ltac:(eapply copy_or_ref_wp; eauto; apply Hi1). intros c s2 (S2 & E2 & Hh2 & Hg2 & Hc).
+      assert (Hi2 : inv S2 G e s2) by (eapply inv_step; eauto).
+      wbind ltac:(eapply (IHes P e es G ts' S2); eauto). intros r s3 (S3 & E3 & Hi3 & HF).
+      apply wp_ret. exists S3; split; [eauto using ext_trans|split; [exact Hi3|]].
+      constructor; auto.
+  Qed.
+
+  Lemma call_step : call_sound (S f).
+  Proof.
+    intros P e name args G sg ts S s Hsig Hty Hok Hm Hs1 HG Hi. cbn [eval_call].
+    destruct (s1_name_facts name (p_funcs P) Hm) as (Ht & Hl & Hn).
+    wbind ltac:(eapply IHes; eauto using sig_args_ok_value). intros vals s1 (S1 & E1 & Hi1 & HF).
+    rewrite Ht. destruct (builtin name e vals) as [m|] eqn:Eb.
+    - eapply wp_mono; [eapply builtin_sound; eauto; rewrite <- Hl; eauto|]. cbv beta.
+      intros r s2 (S2 & l & -> & E2 & Hi2 & Hl2). exists S2, l; repeat split; eauto using ext_trans; apply Hi2.
+    - apply builtin_none in Eb. congruence.
+  Qed.
+End ExprsStep.
+
+(* ---------- statements: checker equations ---------- *)
+Section CondsWt.
+  Context (F : list funcdef) (ret : option ty) (il : bool) (G : tyenv).
+  Fixpoint conds_wt (cs : list (expr * list stmt)) : bool :=
+    match cs with
+    | [] => true
+    | (c, body) :: r =>
+        opt_ty_eqb (ety F (push G) c) TBool && is_some (wt_stmts F ret il (push G) body) && conds_wt r
+    end.
+End CondsWt.
+
+Fixpoint conds_s1 (cs : list (expr * list stmt)) : bool :=
+  match cs with [] => true | (c, b) :: r => s1_expr c && s1_stmts b && conds_s1 r end.
+
+Lemma wt_stmt_SIf F ret il G conds els : wt_stmt F ret il G (SIf conds els) =
+  if conds_wt F ret il G conds &&
+     match els with Some body => is_some (wt_stmts F ret il (push G) body) | None => true end
+  then Some G else None.
+Proof. reflexivity. Qed.
+
+Lemma wt_stmt_SWhile F ret il G c body : wt_stmt F ret il G (SWhile c body) =
+  if opt_ty_eqb (ety F (push G) c) TBool && is_some (wt_stmts F ret true (push G) body) then Some G else None.
+Proof. reflexivity. Qed.
+
+Lemma wt_stmt_SFor F ret il G var vt r body : wt_stmt F ret il G (SFor var vt r body) =
+      let G1 := push G in
+      let rng : option ty :=
+        match r with
+        | RStep start stop step =>
+            if etyo F G1 start && opt_ty_eqb (ety F G1 stop) TNum && etyo F G1 step then Some TNum else None
+        | RExpr y => match ety F G1 y with Some t => range_var_ty t | None => None end
+        end in
+      match rng with
+      | None => None
+      | Some t =>
+          let G2 := match var with
+                    | Some v => if binder_ok v && ty_eqb vt t && ty_decl vt then Some ((true, [(v, vt)]) :: G) else None
+                    | None => Some ((true, []) :: G)
+                    end in
+          match G2 with
+          | Some G2 => if is_some (wt_stmts F ret true G2 body) then Some G else None
+          | None => None
+          end
+      end.
+Proof. reflexivity. Qed.
+
+Lemma s1_stmt_SIf conds els : s1_stmt (SIf conds els) =
+  conds_s1 conds && match els with Some b => s1_stmts b | None => true end.
+Proof. reflexivity. Qed.
+Lemma s1_stmt_SWhile c body : s1_stmt (SWhile c body) = s1_expr c && s1_stmts body.
+Proof. reflexivity. Qed.
+Lemma s1_stmt_SFor var vt r body : s1_stmt (SFor var vt r body) =
+      match var with Some _ => ty_s1 vt | None => true end
+      && match r with
+         | RStep a b c => s1_opt a && s1_expr b && s1_opt c
+         | RExpr y => s1_expr y
+         end
+      && s1_stmts body.
+Proof. reflexivity. Qed.
+Lemma s1_stmt_SCallStmt name args : s1_stmt (SCallStmt name args) = mem_str name s1_builtins && s1_exprs args.
+Proof. reflexivity. Qed.
+
+(* ---------- statements: invariant bookkeeping ---------- *)
+Lemma grows_inv b sf0 T G' : grows ((b, sf0) :: T) G' -> exists sf, G' = (b, sf) :: T /\ fgrows b T sf0 sf.
+Proof. intros (b' & a & c & T' & E & -> & H). inversion E; subst. eauto. Qed.
+
+Lemma inv_nonempty S G e s : inv S G e s -> G <> [].
+Proof.
+  intros [_ He] ->. apply env_ok_length in He. unfold full in He. rewrite app_length in He. simpl in He. lia.
+Qed.
+
+Lemma spost_of_kpost {A} S G e (a : A) sig e' s' :
+  G <> [] -> kpost S G e (a, e') s' -> spost S G G e (sig, e') s'.
+Proof.
+  intros HG (S' & E & [Hh He] & Hl). exists S', G. simpl in *. repeat split; auto using grows_refl; apply Hh.
+Qed.
+
+Lemma pop_post {A} S G Gb e r s' (a : A) :
+  G <> [] -> spost S (push G) Gb ([] :: e) r s' -> kpost S G e (a, tl (snd r)) s'.
+Proof.
+  intros HG (S' & G'' & E & Hh & Hg & He & Hl & _).
+  apply grows_inv in Hg as (sf & -> & _).
+  apply env_ok_pop in He as [He Hne]; auto.
+  exists S'; split; auto. split; [split; auto|].
+  simpl. destruct (snd r); [congruence|]. simpl in *. lia.
+Qed.
+
+Lemma inv_push S G e s : inv S G e s -> inv S (push G) ([] :: e) s.
+Proof. intros [Hh He]. split; auto. unfold full; simpl. apply env_ok_push; auto. Qed.
+
+Lemma inv_unpush S b sf G d e s : inv S ((b, sf) :: G) (d :: e) s -> inv S G e s.
+Proof. intros [Hh He]. split; auto. unfold full in *; simpl in He. inversion He; subst; auto. Qed.
+
+Lemma list_set_Forall {A} (P : A -> Prop) l k x : Forall P l -> P x -> Forall P (list_set l k x).
+Proof.
+  intros H Hx; revert k; induction H; intros k; simpl; [constructor|].
+  destruct k; constructor; auto.
+Qed.
+
+Lemma ty_decl_not_none t : ty_decl t = true -> t <> TNone.
+Proof. unfold ty_decl. intros H E; subst; discriminate. Qed.
+
+Lemma env_ok_shrink S T fr0 G'' fe :
+  grows ((true, fr0) :: T) G'' -> env_ok S G'' fe -> env_ok S ((true, fr0) :: T) fe.
+Proof.
+  intros Hg He. apply grows_inv in Hg as (sf & -> & Hf).
+  inversion He; subst. constructor; auto. eapply frame_ok_shrink; eauto.
+Qed.
+
+Lemma rg_ok_ext S S' named rg : ext S S' -> rg_ok S named rg -> rg_ok S' named rg.
+Proof.
+  intros E. destruct rg; simpl; auto.
+  intros [(u & H1 & H2)|H]; [left; eauto|right; auto].
+Qed.
+
+(* ---------- blocks and loops ---------- *)
+Ltac kdone S' :=
+  exists S'; split; [eauto using ext_trans, ext_refl | split; [eassumption | simpl in *; congruence]].
+Section CtlStep.
+  Context (f : nat) (IH : all_sound f).
+  Let IHe : expr_sound f := proj1 IH.
+  Let IHstmt : stmt_sound f := proj1 (proj2 (proj2 (proj2 IH))).
+  Let IHstmts : stmts_sound f := proj1 (proj2 (proj2 (proj2 (proj2 IH)))).
+  Let IHblock : block_sound f := proj1 (proj2 (proj2 (proj2 (proj2 (proj2 IH))))).
+  Let IHcond : cond_sound f := proj1 (proj2 (proj2 (proj2 (proj2 (proj2 (proj2 IH)))))).
+  Let IHwhile : while_sound f := proj1 (proj2 (proj2 (proj2 (proj2 (proj2 (proj2 (proj2 IH))))))).
+  Let IHfor : for_sound f := proj2 (proj2 (proj2 (proj2 (proj2 (proj2 (proj2 (proj2 IH))))))).
+
+  Lemma block_step : block_sound (S f).
+  Proof.
+    intros P ret il e l G G' S s Hwt Hs1 HG Hi. cbn [exec_block].
+    apply wp_bind. eapply tick_inv; [exact Hi|]. intros s' Hi'. eapply IHstmts; eauto.
+  Qed.
+
+  Lemma stmts_step : stmts_sound (S f).
+  Proof.
+    intros P ret il e l G G' S s Hwt Hs1 HG Hi. cbn [exec_stmts]. destruct l as [|st l].
+    - simpl in Hwt; inversion Hwt; subst. apply wp_ret.
+      exists S, G'. simpl. destruct Hi as [Hh He].
+      repeat split; auto using ext_refl, grows_refl; try apply Hh.
+      apply grows_refl. eapply inv_nonempty; split; eauto.
+    - cbn [wt_stmts] in Hwt. cbn [s1_stmts] in Hs1. apply andb_true_iff in Hs1 as [Hs1a Hs1b].
+      destruct (wt_stmt (p_funcs P) ret il G st) as [G1|] eqn:E1; [|discriminate].
+      wbind ltac:(eapply IHstmt; eauto). intros [sig e1] s1 (S1 & G1' & Ex1 & Hh1 & Hg1 & He1 & Hl1 & Hn1).
+      simpl in *.
+      destruct (is_ctl sig) eqn:Ec.
+      + apply wp_ret. exists S1, G1'. simpl. repeat split; auto; try apply Hh1.
+        intros ->; discriminate.
+      + assert (sig = SigNone) by (destruct sig; auto; discriminate). subst sig.
+        rewrite (Hn1 eq_refl) in *.
+        eapply wp_mono; [eapply (IHstmts P ret il e1 l G1 G' S1); eauto using genv_ok_grows; split; auto|].
+        cbv beta. intros [sig2 e2] s2 (S2 & G2 & Ex2 & Hh2 & Hg2 & He2 & Hl2 & Hn2). simpl in *.
+        exists S2, G2. simpl. repeat split; eauto using ext_trans, grows_trans; try apply Hh2. congruence.
+  Qed.
+
+  Lemma cond_step : cond_sound (S f).
+  Proof.
+    intros P ret il e c body G Gb S s Hc Hb Hs1c Hs1b HG Hi. cbn [exec_cond].
+    pose proof (inv_nonempty _ _ _ _ Hi) as HGne.
+    wbind ltac:(eapply (IHe P ([] :: e) c (push G) TBool S); eauto using inv_push, genv_ok_push).
+    intros l s1 (S1 & E1 & Hi1 & Hl1).
+    wbind ltac:(eapply load_wp; eauto; apply Hi1). intros v s2 [-> Hv]. inversion Hv; subst.
+    destruct b.
+    - wbind ltac:(eapply (IHblock P ret il ([] :: e) body (push G) Gb S1); eauto using genv_ok_push).
+      intros [sig e2] s2 Hp. apply wp_ret.
+      eapply (pop_post S1 G Gb e (sig, e2) s2 (Some sig)) in Hp; auto.
+      destruct Hp as (S2 & E2 & Hi2 & Hl2). exists S2; eauto using ext_trans.
+    - apply wp_ret. exists S1; split; auto. split; auto. eapply inv_unpush; eauto.
+  Qed.
+
+  Lemma while_step : while_sound (S f).
+  Proof.
+    intros P ret e c body G Gb S s Hc Hb Hs1c Hs1b HG Hi. cbn [exec_while].
+    wbind ltac:(eapply IHcond; eauto). intros [r e1] s1 (S1 & E1 & Hi1 & Hl1). simpl in *.
+    assert (K : kpost S G e (SigNone, e1) s1) by (exists S1; auto).
+    destruct r as [[| |v]|]; try (apply wp_ret; destruct K as (S' & K1 & K2 & K3); exists S'; auto).
+    eapply wp_mono; [eapply (IHwhile P ret e1 c body G Gb S1); eauto|]. cbv beta.
+    intros [sig e2] s2 (S2 & E2 & Hi2 & Hl2). kdone S2.
+  Qed.
+
+  Lemma for_next_wp S G e s named rg :
+    inv S G e s -> rg_ok S named rg ->
+    wp ((match rg with
+         | RgStep cur stop step =>
+             if (PrimFloat.ltb 0 step && PrimFloat.leb stop cur) || (PrimFloat.ltb step 0 && PrimFloat.leb cur stop)
+             then ret None
+             else let* l := alloc (HNum cur) in ret (Some (l, RgStep (cur + step)%float stop step))
+         | RgArr a cur =>
+             let* v := load a in
+             match v with
+             | HArr els => match nth_error els cur with
+                           | Some l => ret (Some (l, RgArr a (Datatypes.S cur)))
+                           | None => ret None end
+             | _ => crash "range over non-array"
+             end
+         | RgStr s cur =>
+             match nth_error s cur with
+             | Some c => let* l := alloc (HStr [c]) in ret (Some (l, RgStr s (Datatypes.S cur)))
+             | None => ret None
+             end
+         | RgMap m todo =>
+             let* v := load m in
+             match v with
+             | HMap om =>
+                 (fix next (ks : list str) : M (option (loc * ranger)) :=
+                    match ks with
+                    | [] => ret None
+                    | k :: t => if ohas k om then let* l := alloc (HStr k) in ret (Some (l, RgMap m t))
+                                else next t
+                    end) todo
+             | _ => crash "range over non-map"
+             end
+         end) s)
+       (fun nx s' => exists S', ext S S' /\ inv S' G e s' /\
+          match nx with
+          | None => True
+          | Some (l, rg') => rg_ok S' named rg' /\ (forall vt, named = Some vt -> sfind S' l = Some vt)
+          end).
+  Proof.
+    intros Hi Hrg. pose proof Hi as [Hh He]. destruct rg; simpl in Hrg.
+    - match goal with |- context [if ?c then _ else _] => destruct c end.
+      + apply wp_ret. exists S; auto using ext_refl.
+      + wbind ltac:(eapply (alloc_epost S S G e s (HNum cur) TNum); eauto using ext_refl; constructor).
+        intros l s1 (S1 & E1 & Hi1 & Hl1). apply wp_ret. exists S1; split; [auto|split; [exact Hi1|]].
+        split; [simpl; auto|]. intros vt Hvt. destruct Hrg as [H|H]; congruence.
+    - destruct Hrg as [(u & H1 & H2)|H1].
+      + wbind ltac:(eapply load_wp with (S := S); eauto).
+        intros v s1 [-> Hv]. inversion Hv; subst.
+        destruct (nth_error els cur) as [l|] eqn:En; apply wp_ret;
+          (exists S; split; [apply ext_refl|split; [exact Hi|]]); auto.
+        split; [simpl; left; eauto|].
+        intros vt Hvt. match goal with HF : Forall _ els |- _ => rewrite Forall_forall in HF; rename HF into HF0 end.
+        apply nth_error_In in En.
+        destruct H2; [congruence|]. rewrite (HF0 _ En). congruence.
+      + wbind ltac:(eapply load_wp with (S := S); eauto).
+        intros v s1 [-> Hv]. inversion Hv; subst. destruct cur; apply wp_ret; exists S; auto using ext_refl.
+    - destruct (nth_error runes cur) as [c|].
+      + wbind ltac:(eapply (alloc_epost S S G e s (HStr [c]) TStr); eauto using ext_refl; constructor).
+        intros l s1 (S1 & E1 & Hi1 & Hl1). apply wp_ret. exists S1; split; [auto|split; [exact Hi1|]].
+        split; [simpl; auto|]. intros vt Hvt. destruct Hrg as [H|H]; congruence.
+      + apply wp_ret. exists S; auto using ext_refl.
+    - contradiction.
+  Qed.
+
+  Lemma for_step : for_sound (S f).
+  Proof.
+    intros P ret e var rg body G fr0 named Gb S s Hb Hs1 HG Hi Hfr Hrg. cbn [exec_for].
+    wbind ltac:(eapply for_next_wp; eauto). intros nx s1 (S1 & E1 & Hi1 & Hnx).
+    destruct nx as [[l rg']|].
+    2:{ apply wp_ret. exists S1; auto. }
+    destruct Hnx as [Hrg' Hl].
+    (* rebinding of the loop variable *)
+    assert (U : wp (update_var var l e s1)
+                   (fun e1 s2 => inv S1 ((true, fr0) :: G) e1 s2 /\ List.length e1 = List.length e)).
+    { destruct named as [vt|]; simpl in Hfr.
+      - destruct Hfr as [Hbo ->]. pose proof (binder_not_reserved _ Hbo) as (_ & _ & Hus).
+        destruct Hi1 as [Hh1 He1].
+        assert (Hsl : slookup var ((true, [(var, vt)]) :: G) = Some vt) by (simpl; rewrite str_eqb_refl; auto).
+        destruct (env_get_sound _ _ _ _ _ He1 Hsl) as (l0 & Hl0 & _).
+        destruct (env_update_some var l (full e s1)) as (fe' & Hfe'); [congruence|].
+        eapply wp_mono; [eapply update_var_wp; eauto|]. cbv beta. intros e1 s2 (H1 & H2 & H3).
+        split; auto. split; [rewrite H1; auto|]. rewrite H3. eapply env_update_ok; eauto.
+      - destruct Hfr as [-> ->]. unfold update_var. simpl. auto. }
+    wbind ltac:(exact U). intros e1 s2 [Hi2 Hl2].
+    wbind ltac:(eapply (IHblock P ret true e1 body ((true, fr0) :: G) Gb S1); eauto).
+    intros [sig e2] s3 (S3 & G3 & E3 & Hh3 & Hg3 & He3 & Hl3 & _). simpl in *.
+    assert (Hi3 : inv S3 ((true, fr0) :: G) e2 s3) by (split; eauto using env_ok_shrink).
+    destruct sig.
+    - eapply wp_mono; [eapply (IHfor P ret e2 var rg' body G fr0 named Gb S3); eauto using rg_ok_ext|].
+      cbv beta. intros [sig4 e4] s4 (S4 & E4 & Hi4 & Hl4). kdone S4.
+    - apply wp_ret. kdone S3.
+    - apply wp_ret. kdone S3.
+  Qed.
+End CtlStep.
